@@ -177,8 +177,12 @@ def sym_str(e):
         return "%s(%s, %s)" % (t, sym_str(e[1]), sym_str(e[2]))
     if t == "*c":
         return "(%s * %s)" % (sym_str(e[1]), _fmt(e[2]))
-    if t == "/c":
+    if t in ("/c", "/f"):
         return "(%s / %s)" % (sym_str(e[1]), _fmt(e[2]))
+    if t == "*k":
+        return "(%s * [%s..%s])" % (sym_str(e[1]), _fmt(e[2][0]), _fmt(e[2][1]))
+    if t == "floor":
+        return "floor(%s)" % sym_str(e[1])
     return str(e)
 
 
@@ -204,7 +208,52 @@ def _linear(e):
         if a is None:
             return None
         return ({k: v * e[2] for k, v in a[0].items() if v * e[2] != 0}, a[1] * e[2])
+    if t == "/f" and e[2] != 0:
+        a = _linear(e[1])
+        if a is None:
+            return None
+        return ({k: v / e[2] for k, v in a[0].items()}, a[1] / e[2])
     return None
+
+
+def _resolve_k(e, upper, env):
+    """Replace interval-coefficient products by their upper / lower bound expression."""
+    t = e[0]
+    if t in ("s", "c"):
+        return e
+    if t == "*k":
+        inner_lo = env.bounds(e[1])[0]
+        a = _resolve_k(e[1], upper, env)
+        if inner_lo >= 0:
+            return ("*c", a, e[2][1] if upper else e[2][0])
+        return None
+    if t in ("+", "min", "max"):
+        a, b = _resolve_k(e[1], upper, env), _resolve_k(e[2], upper, env)
+        if a is None or b is None:
+            return None
+        return (t, a, b)
+    if t == "-":
+        a, b = _resolve_k(e[1], upper, env), _resolve_k(e[2], not upper, env)
+        if a is None or b is None:
+            return None
+        return (t, a, b)
+    if t in ("*c", "/c", "/f"):
+        a = _resolve_k(e[1], upper if e[2] >= 0 else not upper, env)
+        if a is None:
+            return None
+        return (t, a, e[2])
+    if t == "floor":
+        a = _resolve_k(e[1], upper, env)
+        return None if a is None else (t, a)
+    return e
+
+
+def _has_k(e):
+    if not isinstance(e, tuple):
+        return False
+    if e[0] == "*k":
+        return True
+    return any(_has_k(x) for x in e[1:] if isinstance(x, tuple))
 
 
 class SymEnv:
@@ -212,7 +261,7 @@ class SymEnv:
 
     def __init__(self, ranges=None, integral=True):
         self.ranges = dict(ranges or {})
-        self.integral = integral
+        self.float_syms = set()
 
     def bounds(self, e):
         t = e[0]
@@ -241,18 +290,56 @@ class SymEnv:
             a = self.bounds(e[1])
             c = e[2]
             if c > 0:
-                if self.integral:
-                    return (_idiv(a[0], c), _idiv(a[1], c))
-                return (a[0] / c, a[1] / c)
+                return (_idiv(a[0], c), _idiv(a[1], c))
             return (-INF, INF)
+        if t == "/f":
+            a = self.bounds(e[1])
+            c = e[2]
+            if c > 0:
+                return (a[0] / c, a[1] / c)
+            if c < 0:
+                return (a[1] / c, a[0] / c)
+            return (-INF, INF)
+        if t == "*k":
+            a = self.bounds(e[1])
+            ps = [x * y for x in a for y in e[2] if not (x in (INF, -INF) and y == 0)] or [-INF, INF]
+            return (min(ps), max(ps))
+        if t == "floor":
+            a = self.bounds(e[1])
+            return (a[0] if a[0] in (INF, -INF) else math.floor(a[0]), a[1] if a[1] in (INF, -INF) else math.floor(a[1]))
         return (-INF, INF)
+
+    def integral(self, e):
+        t = e[0]
+        if t == "s":
+            return e[1] not in self.float_syms
+        if t == "c":
+            return float(e[1]).is_integer()
+        if t in ("+", "-", "min", "max"):
+            return self.integral(e[1]) and self.integral(e[2])
+        if t == "*c":
+            return self.integral(e[1]) and float(e[2]).is_integer()
+        if t in ("floor", "/c"):
+            return True
+        return False
 
     def le(self, a, b, depth=0):
         """a <= b ?  (True = proved, False = unknown)"""
-        if depth > 12:
+        if depth > 14:
             return False
         if a == b:
             return True
+        if _has_k(a) or _has_k(b):
+            a2, b2 = _resolve_k(a, True, self), _resolve_k(b, False, self)
+            if a2 is None or b2 is None:
+                return False
+            return self.le(a2, b2, depth + 1)
+        if a[0] == "floor":
+            if self.le(a[1], b, depth + 1):
+                return True
+        if b[0] == "floor":
+            if self.integral(a) and self.le(a, b[1], depth + 1):
+                return True
         ba, bb = self.bounds(a), self.bounds(b)
         if ba[1] <= bb[0]:
             return True
@@ -285,12 +372,16 @@ class SymEnv:
         # monotone: x*c <= y*c, x/c <= y/c
         if a[0] == "*c" and b[0] == "*c" and a[2] == b[2] and a[2] > 0:
             return self.le(a[1], b[1], depth + 1)
-        if a[0] == "/c" and b[0] == "/c" and a[2] == b[2] and a[2] > 0:
+        if a[0] in ("/c", "/f") and b[0] == a[0] and a[2] == b[2] and a[2] > 0:
             return self.le(a[1], b[1], depth + 1)
         # x*p/q <= x for 0 <= p <= q, x >= 0   and   x <= x*p/q for p >= q
-        if a[0] == "/c" and a[1][0] == "*c" and a[2] > 0:
+        if a[0] in ("/c", "/f") and a[1][0] == "*c" and a[2] > 0:
             inner, p, q = a[1][1], a[1][2], a[2]
             if 0 <= p <= q and self.bounds(inner)[0] >= 0 and self.le(inner, b, depth + 1):
+                return True
+        if b[0] in ("/c", "/f") and b[1][0] == "*c" and b[2] > 0 and b[0] == "/f":
+            inner, p, q = b[1][1], b[1][2], b[2]
+            if p >= q and self.bounds(inner)[0] >= 0 and self.le(a, inner, depth + 1):
                 return True
         # linear difference
         la, lb = _linear(a), _linear(b)
@@ -477,7 +568,18 @@ def sym_bin(op, a, b, ty, env=None):
                 name = "t%d" % _fresh[0]
                 env.ranges[name] = (x.lo, x.hi)
                 x.sym = ("s", name)
+    if op == "Mul":
+        # symbolic x interval coefficient (e.g. a step chosen from a small table)
+        for x, y in ((a, b), (b, a)):
+            if x.sym is not None and (y.sym is None or y.sym[0] != "c") and not y.nan and y.lo <= y.hi and y.lo >= 0 and y.hi < INF and not x.nan:
+                if y.sym is None or y.sym[0] not in ("s",):
+                    if y.lo == y.hi:
+                        return ("*c", x.sym, y.lo)
+                    if y.sym is None:
+                        return ("*k", x.sym, (y.lo, y.hi))
     if a.sym is None or b.sym is None:
+        return None
+    if (a.nan or b.nan):
         return None
     if op == "Add":
         return ("+", a.sym, b.sym)
@@ -491,7 +593,7 @@ def sym_bin(op, a, b, ty, env=None):
         return None
     if op == "Div":
         if b.sym[0] == "c" and b.sym[1] > 0:
-            return ("/c", a.sym, b.sym[1])
+            return ("/f" if is_float(ty) else "/c", a.sym, b.sym[1])
         return None
     return None
 
@@ -591,6 +693,7 @@ class Entry:
         self.params = {}        # local -> value
         self.cells = {}         # (local, proj) -> value        (proj as in cell keys)
         self.sym_ranges = {}
+        self.float_syms = set()
         self.field_inv = {}     # (adt, field) -> factory() -> value   used when a never-stored field is loaded
 
     def param(self, l, v):
@@ -601,8 +704,10 @@ class Entry:
         self.cells[(l, ("deref",) + tuple(path))] = v
         return self
 
-    def sym(self, name, lo, hi):
+    def sym(self, name, lo, hi, is_float=False):
         self.sym_ranges[name] = (lo, hi)
+        if is_float:
+            self.float_syms.add(name)
         return self
 
     def invariant(self, adt, field, factory):
@@ -629,12 +734,15 @@ class AbsInt:
         self.steps = 0
         self.max_steps = 400000
         self.snapshot_stores = False
+        self.local_defs = []     # (fn, local, name, value, bb, si, loc) for assignments to named user variables
+        self.name_syms = {}      # (fn stable, variable name) -> symbol name
 
     # ------------------------------------------------------------------ running
     def run(self, fn, entry=None):
         entry = entry or Entry()
         self.field_inv = entry.field_inv
         self.symenv = SymEnv(entry.sym_ranges)
+        self.symenv.float_syms = set(entry.float_syms)
         mem = {}
         frame = self._new_frame()
         for l in range(1, fn.argc + 1):
@@ -708,7 +816,7 @@ class AbsInt:
             if v is None:
                 v = self._materialise(c, place, ty, fn)
                 mem[c] = v
-            if len(cells) == 1 and isinstance(v, (Num, Bool)) and c[2]:
+            if len(cells) == 1 and isinstance(v, (Num, Bool)):
                 v = _with_src(v, c)
             out = v if out is None else join(out, v)
         return out if out is not None else TOP
@@ -899,14 +1007,18 @@ class AbsInt:
                     lo, hi = 0, 0
                 if a.nan:
                     lo, hi = min(lo, 0), max(hi, 0)
-                return Num(ty, lo, hi)
+                fs = None
+                if a.sym is not None and not a.nan and a.lo >= 0 and a.hi <= thi:
+                    fs = ("floor", a.sym)
+                return Num(ty, lo, hi, False, fs)
             if a.lo >= tlo and a.hi <= thi:
                 return Num(ty, a.lo, a.hi, False, a.sym, None, a.lin)
             return Num(ty, tlo, thi)
         if is_float(ty):
             if is_float(a.ty):
-                return Num(ty, a.lo, a.hi, a.nan)
-            return Num(ty, _down(float(a.lo)), _up(float(a.hi)), False)
+                return Num(ty, a.lo, a.hi, a.nan, a.sym)
+            exact = abs(a.lo) < 2**53 and abs(a.hi) < 2**53
+            return Num(ty, float(a.lo) if exact else _down(float(a.lo)), float(a.hi) if exact else _up(float(a.hi)), False, a.sym if exact else None)
         return top_of(ty)
 
     def binop(self, op, a, b, oty, oa=None, ob=None, frame=None):
@@ -957,6 +1069,16 @@ class AbsInt:
         if c is None:
             return True
         op, ra, rb, av, bv = c
+        if op in ("finite", "notfinite"):
+            is_fin = (op == "finite") == truth
+            if is_fin and isinstance(av, Num):
+                cur = self._cur(mem, ra, av)
+                FM = 1.7976931348623157e308
+                new = cur.copy(lo=max(cur.lo, -FM), hi=min(cur.hi, FM), nan=False)
+                if new.lo > new.hi:
+                    return False
+                self._write_back(mem, ra, new, cur)
+            return True
         if not truth:
             op = NEG[op]
         if not (isinstance(av, Num) and isinstance(bv, Num)):
@@ -1088,6 +1210,17 @@ class AbsInt:
                 loc = s.get("loc")
                 val = self.eval_rvalue(frame, s["rv"], mem, fn, bb, si, loc, chain)
                 self.store(frame, s["p"], val, mem, fn, bb, si, loc, chain)
+                if not s["p"]["proj"] and s["p"]["l"] in fn.names:
+                    nm = fn.names[s["p"]["l"]]
+                    symname = self.name_syms.get((fn.stable, nm))
+                    if symname is not None and isinstance(val, Num) and val.lo <= val.hi and not val.nan:
+                        # the rule asks for this user variable to be a symbol of its own (relations are stated against it)
+                        self.symenv.ranges[symname] = (val.lo, val.hi)
+                        if is_float(val.ty):
+                            self.symenv.float_syms.add(symname)
+                        val = val.copy(sym=("s", symname))
+                        mem[(frame, s["p"]["l"], ())] = val
+                    self.local_defs.append((fn, s["p"]["l"], nm, val, bb, si, loc))
             elif k == "dead":
                 pass
         t = blk["term"]
@@ -1260,6 +1393,8 @@ class AbsInt:
         if res == "diverges" or t["t"] is None:
             return []
         self.store(frame, t["dest"], res, mem, fn, bb, nst, loc, chain)
+        if not t["dest"]["proj"] and t["dest"]["l"] in fn.names:
+            self.local_defs.append((fn, t["dest"]["l"], fn.names[t["dest"]["l"]], res, bb, nst, loc))
         return [(t["t"], mem)]
 
     def _inline(self, callee, args, mem, chain, t):
@@ -1287,7 +1422,7 @@ class AbsInt:
         return _with_src(ret, None) if not isinstance(ret, Ptr) else ret
 
 
-NEG = {"Eq": "Ne", "Ne": "Eq", "Lt": "Ge", "Ge": "Lt", "Le": "Gt", "Gt": "Le"}
+NEG = {"Eq": "Ne", "Ne": "Eq", "Lt": "Ge", "Ge": "Lt", "Le": "Gt", "Gt": "Le", "finite": "notfinite", "notfinite": "finite"}
 
 
 def _with_src(v, src):
@@ -1381,6 +1516,22 @@ def refine_cmp(op, a, b):
     one = 1 if isint else 0
     alo, ahi, blo, bhi = a.lo, a.hi, b.lo, b.hi
     anan, bnan = a.nan, b.nan
+    if not isint and op in ("Lt", "Gt"):
+        # strict float comparison: step one ulp
+        def nxt(x, up):
+            if x in (INF, -INF) or x != x:
+                return x
+            return math.nextafter(x, INF if up else -INF)
+        if op == "Lt":
+            ahi = min(ahi, nxt(bhi, False))
+            blo = max(blo, nxt(alo, True))
+        else:
+            alo = max(alo, nxt(blo, True))
+            bhi = min(bhi, nxt(ahi, False))
+        anan = bnan = False
+        if alo > ahi or blo > bhi:
+            return None, None
+        return a.copy(lo=alo, hi=ahi, nan=False), b.copy(lo=blo, hi=bhi, nan=False)
     if op == "Lt":
         ahi = min(ahi, bhi - one)
         blo = max(blo, alo + one)
@@ -1446,7 +1597,8 @@ def _min(a, b):
             return b.copy(sym=None, src=None)
         if b.lo > b.hi:
             return a.copy(sym=None, src=None)
-        return Num(a.ty, lo, hi, a.nan and b.nan)
+        fsym = ("min", a.sym, b.sym) if (a.sym is not None and b.sym is not None and not a.nan and not b.nan) else None
+        return Num(a.ty, lo, hi, a.nan and b.nan, fsym)
     sym = ("min", a.sym, b.sym) if a.sym is not None and b.sym is not None else None
     return Num(a.ty, min(a.lo, b.lo), min(a.hi, b.hi), False, sym)
 
@@ -1463,7 +1615,8 @@ def _max(a, b):
             return b.copy(sym=None, src=None)
         if b.lo > b.hi:
             return a.copy(sym=None, src=None)
-        return Num(a.ty, lo, hi, a.nan and b.nan)
+        fsym = ("max", a.sym, b.sym) if (a.sym is not None and b.sym is not None and not a.nan and not b.nan) else None
+        return Num(a.ty, lo, hi, a.nan and b.nan, fsym)
     sym = ("max", a.sym, b.sym) if a.sym is not None and b.sym is not None else None
     return Num(a.ty, max(a.lo, b.lo), max(a.hi, b.hi), False, sym)
 
